@@ -3,7 +3,7 @@ from ..engine import analyze_fn, program
 from ..terms import T, pp
 from .. import prov
 from ..prov import norm, show, P, F_, C
-from ..hashrules import soundness, gnu_hash_form, fact_norms, wh
+from ..hashrules import soundness, gnu_hash_form, fact_norms, wh, walk_exits, range_of_next
 
 LEVEL = "other"
 EXPLANATION = (
@@ -98,6 +98,19 @@ def run(ctx, rep):
         # stop bit
         stops = [b for b, d in an.switches.items() if b in an.entry and "chains" in pp(d) and norm(d)[0] in ("Ne", "Eq") and "BitAnd" in repr(norm(d)) and C(1) in _flat(norm(d))]
         rep.require(bool(stops), "linkage", "chain:stop", w, "stop when chain[i] & 1", "the chain walk never tests the stop bit (chain & 1)")
+        # ways out of the walk: the range is exhausted, the stop bit, a failed read, or the match
+        def stop(d, val, sw):
+            if d[0] == "discr" and d[1][0] == "fresh" and range_of_next(an, sw) is not None:   # the range itself is rule chain:range
+                return val == "0" or "leaves while the range still has entries"
+            if d[0] in ("Ne", "Eq") and len(d) == 3:
+                band = [x for x in d[1:] if isinstance(x, tuple) and x[0] == "BitAnd" and C(1) in x[1:] and "chains" in repr(x)]
+                cst = [x for x in d[1:] if x in (C(0), C(1))]
+                if len(band) == 1 and len(cst) == 1:
+                    # the branch value under which the stop bit is set: (x & 1) != 0, or (x & 1) == 1
+                    set_when_true = (d[0] == "Ne") == (cst[0] == C(0))
+                    return (val == "otherwise") == set_when_true or "leaves when the stop bit is clear"
+            return None
+        walk_exits(an, rep, "linkage", "find", w, stop, "chain range exhausted, or stop bit set")
     # constructor: 16-byte header, nbloom class-sized words, nbucket u32 buckets, chains = the rest
     fn = F.fn("hash::GnuHashTable::new")
     if fn is not None:
